@@ -425,6 +425,15 @@ impl SchemaDoc {
         if var.builtin_scalars == 2 {
             all.extend(builtins.iter().cloned());
         }
+        // a server that knows `isOneOf` answers it on EVERY type: null where it does not apply (in the variants
+        // that also list the `__` types, i.e. a full reply)
+        if var.is_one_of && var.meta_types != 0 {
+            for t in all.iter_mut() {
+                if let Some(o) = t.as_object_mut() {
+                    o.entry("isOneOf").or_insert(Value::Null);
+                }
+            }
+        }
         let (q, m, s) = self.root_names();
         let nm = |x: Option<String>| match x {
             Some(n) => json!({ "name": n }),
